@@ -2664,7 +2664,13 @@ fn oracle_twin(rep: &mut Report, tw: &Twin, res: &Res, tres: &Res) {
             format!("invalidator registrations differ: StructReg {:?} vs explicit {:?}", ia, ib),
         );
     }
-    if a.looks != b.looks {
+    // A name that only the StructReg mentions (in a property every entry overrides) is interned
+    // there but unknown to the twin: in both documents no node is stored under it, which is all
+    // the property speaks about.  `-` (interned, no node) and `?` (not interned) are equivalent here.
+    let canon = |l: &Vec<String>| -> Vec<String> {
+        l.iter().map(|x| if x.ends_with(":-") { format!("{}?", &x[..x.len() - 1]) } else { x.clone() }).collect()
+    };
+    if canon(&a.looks) != canon(&b.looks) {
         emit(rep, json!({"kind": kind, "field": "look"}), "look-ups differ".into());
     }
 }
